@@ -409,6 +409,17 @@ func (s *Scenario) withBudget(b Budget, suffix string) *Scenario {
 	return s
 }
 
+// withFeeChanges: governance changes both fees (to other denominations, or to none) while auctions
+// are waiting or open; whoever pays a fee afterwards pays the fee in force at that moment.
+func (s *Scenario) withFeeChanges() *Scenario {
+	s.al.ParamUpdates = append(s.al.ParamUpdates,
+		Op{Kind: "update_params", Authority: "gov", CreationFee: "3acoin", BidFee: "2acoin", ExtPeriod: 1},
+		Op{Kind: "update_params", Authority: "gov", ExtPeriod: 1})
+	s.Budget["params"] = 1
+	s.Name += "+feechange"
+	return s
+}
+
 // withProbes adds the C18 field-alphabet probes to the menu of every state.
 func (s *Scenario) withProbes(pairs bool) *Scenario {
 	inner := s.Menu
